@@ -35,7 +35,7 @@ func init() { core.Register(area{}) }
 
 func (area) Name() string { return "codec" }
 
-const kinds = 11
+const kinds = 12
 
 func (area) Run(c *core.Ctx) error {
 	for i := 0; i < c.N; i++ {
@@ -70,6 +70,8 @@ func (area) Run(c *core.Ctx) error {
 			streamCase(c, r)
 		case 10:
 			poolAliasCase(c, r)
+		case 11:
+			callerBufferCase(c, r)
 		}
 	}
 	return nil
@@ -597,6 +599,16 @@ func encodeBlock(c *core.Ctx, r *rand.Rand, enc *encoding.TSDEncoder, b *tsdBloc
 		b.data = cp(d)
 		return hx(d)
 	})
+	if b.data != nil && !b.noTime {
+		data := b.data
+		guard(c, "tdt "+hx(data), func() string {
+			s, e := encoding.DecodeTSDTime(data)
+			if int(s) != b.start || int(e) != b.end() {
+				c.Fail("tsd-time-range", fmt.Sprintf("block [%d,%d]: DecodeTSDTime gives [%d,%d]", b.start, b.end(), s, e))
+			}
+			return fmt.Sprintf("%d %d", s, e)
+		})
+	}
 }
 
 // expected observation of a slot-addressed read
@@ -756,6 +768,7 @@ func tsdCase(c *core.Ctx, r *rand.Rand) {
 			encoding.ReleaseTSDDecoder(dec)
 		}
 	}()
+	unarmedDecoderHistory(c, r)
 	// warm-up, so that what the pools hold at the start of the case does not depend on earlier
 	// cases: one encoder that was used for 3 slots and one decoder that failed on a truncated block
 	// are released; the first Get of the case will (normally) return exactly these objects.
@@ -1284,6 +1297,7 @@ func addOffset(c *core.Ctx, enc *encoding.FixedOffsetEncoder, v int) (ok bool) {
 }
 
 func fixedOffsetCase(c *core.Ctx, r *rand.Rand) {
+	byteSlice2Uint32Ops(c, r)
 	var enc *encoding.FixedOffsetEncoder
 	var dec *encoding.FixedOffsetDecoder
 	defer func() {
@@ -1361,6 +1375,9 @@ func fixedOffsetCase(c *core.Ctx, r *rand.Rand) {
 		guard(c, "fe size 0", func() string { return fmt.Sprint(enc.Size()) })
 		var data []byte
 		guard(c, "fe marshal 0", func() string { data = cp(enc.MarshalBinary()); return hx(data) })
+		if r.Intn(2) == 0 {
+			fixedOffsetWriteFaults(c, r, enc, enc.Size(), data)
+		}
 		guard(c, "fe msize 0", func() string { return fmt.Sprint(enc.MarshalSize()) })
 		if n > 0 && enc.MarshalSize() != len(data) {
 			c.Fail("fo-marshal-size", fmt.Sprintf("MarshalSize()=%d but %d bytes written", enc.MarshalSize(), len(data)))
@@ -1593,6 +1610,7 @@ func externalCase(c *core.Ctx, r *rand.Rand, caseIdx int) {
 	// 1 MiB. Quick: one chunk of 1 MiB+1 in the first external case; thorough: 1 MiB-1, 1 MiB, 1 MiB+1
 	// and 3 MiB+17 in every 7th external case.
 	var bigSizes []int
+	var bigScratch []byte
 	switch {
 	case c.Tier == "thorough" && (caseIdx/kinds)%7 == 0:
 		bigSizes = []int{1<<20 - 1, 1 << 20, 1<<20 + 1, 3<<20 + 17}
@@ -1619,7 +1637,12 @@ func externalCase(c *core.Ctx, r *rand.Rand, caseIdx int) {
 					if m > left {
 						m = left
 					}
-					row := make([]byte, m)
+					// rows of a big chunk come from ONE reused 64 KiB scratch buffer that is poisoned as soon as
+					// Write has returned (a size-dependent zero-copy path would keep seeing the caller's writes)
+					if bigScratch == nil {
+						bigScratch = make([]byte, 65536)
+					}
+					row := bigScratch[:m]
 					if r.Intn(2) == 0 {
 						r.Read(row)
 					} else {
@@ -1631,6 +1654,9 @@ func externalCase(c *core.Ctx, r *rand.Rand, caseIdx int) {
 						c.Fail("snappy-roundtrip", "write error: "+err.Error())
 					}
 					plain = append(plain, row...)
+					for i := range row {
+						row[i] = 0xEE
+					}
 					left -= m
 				}
 				rows = 0
@@ -1687,6 +1713,7 @@ func externalCase(c *core.Ctx, r *rand.Rand, caseIdx int) {
 			}
 		}()
 	}
+	snappyReaderFaultThenReuse(c, r)
 	// something for the model side as well, so the case is not empty in the diffed streams
 	opUv(c, genEdgeU64(r))
 }
@@ -1860,6 +1887,7 @@ type putOp struct {
 
 func streamCase(c *core.Ctx, r *rand.Rand) {
 	c.NonTrivial()
+	streamExtCase(c, r)
 	// --- writer, then the same shapes read back
 	w := stream.NewBufferWriter(nil)
 	c.Op("sw new 0", "-")
